@@ -20,6 +20,7 @@ CONSTANTS
     MaxWakes,   \* wake_by_ref calls per waker thread
     MaxOwner,   \* owner operations
     Sequential, \* TRUE: operations do not overlap (histories for replay)
+    KeepHist,   \* TRUE: the history of completed operations is kept
     Counts,     \* set of notify counts passed to take_scheduled
     Keeps       \* set of numbers of items consumed from the iterator before it is dropped
 
@@ -56,7 +57,7 @@ Init ==
     /\ hist = <<>>
 
 (* the history is only kept for sequential replay: otherwise it would make every state distinct *)
-Rec(x) == IF Sequential THEN Append(hist, x) ELSE hist
+Rec(x) == IF KeepHist /\ (Sequential \/ x.op # "wake") THEN Append(hist, x) ELSE hist
 
 AllIdle == opc = "idle" /\ \A t \in Wakers : wpc[t] = "idle"
 MayStart == ~Sequential \/ AllIdle
@@ -155,7 +156,7 @@ OTakeCas ==
                     /\ armed' = ol.c
                     /\ wakesSinceArm' = {}
                     /\ notifiedAtArm' = notified
-                    /\ hist' = Rec([op |-> ol.op, arg |-> ol.c, keep |-> ol.keep, res |-> IF ol.op = "discard" THEN <<>> ELSE <<"none">>, nt |-> notified])
+                    /\ hist' = Rec([op |-> ol.op, arg |-> ol.c, keep |-> ol.keep, res |-> IF ol.op = "discard" THEN <<>> ELSE <<-1>>, nt |-> notified])
                     /\ UNCHANGED ol
                ELSE /\ opc' = "iter"
                     /\ ol' = [ol EXCEPT !.ni = ol.h.idx]
